@@ -293,6 +293,7 @@ def check_owner_text(ctx):
     the field keeps must come back in the same order (both writers, both handlers)."""
     bodies = ["lead<a>x</a>", "lead<a>x</a>mid<b/>end", '<a k="v">x<b>y</b>z</a>mid<c/>', "lead<a/><b/>", "<a/>tail", "lead",
               # text PADDED with white space is text: it comes back with its padding (only white-space-only runs may go)
+              '<a k="" xmlns:f="urn:f" f:y="">x<b j=""/></a>tail<c k="v" e=""/>',      # attributes whose value is the empty string
               "lead <a>x</a> mid <b/> end", "<a> p <b/> q </a> r <c/>s ", " one\n<a/>\ttwo"]
     # children that bind to classes of their own (with wildcards of their own) instead of generic elements: a class instance
     # has no slot for its tail, so only MIXED content (which keeps text as items of the list) can hold the text after it
